@@ -31,3 +31,25 @@ pub mod vmap {
     }
     }
 }
+pub mod vstr {
+    use vstd::prelude::*;
+    verus! {
+    pub uninterp spec fn lower(s: Seq<char>) -> Seq<char>;          // str::to_lowercase
+    pub uninterp spec fn all_ascii(s: Seq<char>) -> bool;           // str::is_ascii
+    pub uninterp spec fn puny(s: Seq<char>) -> Option<Seq<char>>;   // punycode::encode
+    #[verifier::external_body]
+    pub fn str_to_lowercase(s: &str) -> (r: String) ensures r@ == lower(s@) { unimplemented!() }
+    #[verifier::external_body]
+    pub fn str_is_ascii(s: &str) -> (r: bool) ensures r == all_ascii(s@) { unimplemented!() }
+    pub struct PunyError { pub x: u8 }
+    #[verifier::external_body]
+    pub fn punycode_encode(s: &str) -> (r: Result<String, PunyError>)
+        ensures match r { Ok(v) => puny(s@) == Some(v@), Err(_) => puny(s@) is None } { unimplemented!() }
+    #[verifier::external_body]
+    pub fn cat2(a: &str, b: &str) -> (r: String) ensures r@ == a@ + b@ { unimplemented!() }
+    // Vec<String>::join(sep) for a one-character separator
+    #[verifier::external_body]
+    pub fn join_strings(v: &Vec<String>, c: char) -> (r: String)
+        ensures r@ == crate::vmap::join(v@.map_values(|s: String| s@), c) { unimplemented!() }
+    }
+}
